@@ -19,7 +19,9 @@ DTYPES = ('float64', 'float32', 'complex128')
 
 
 def yvals(shape, dtype, seed):
-    """three pairwise distinct binary-fraction vectors (exact in float32)"""
+    """three pairwise distinct vectors: two of binary fractions (exact in float32), one that mixes magnitudes
+    (2^40 next to 0.75) so that y_prev + 1.0*(y_i - y_prev) differs from y_i - 'exactly y_i at t = t_i' is then
+    distinguishable from an interpolation that merely ends at y_i"""
     n = int(np.prod(shape)) if shape else 1
     base = [1.0, -2.5, 4.25, 0.75, -8.0, 3.5, 6.125, -0.375]
     rot = seed % len(base)
@@ -27,6 +29,8 @@ def yvals(shape, dtype, seed):
     out = []
     for k in range(3):
         v = np.array([base[(k * 3 + i) % len(base)] * (1 + i) for i in range(n)], dtype='float64')
+        if k == 2:
+            v = v * np.array([2.0 ** 40 if i % 2 == 0 else 1.0 for i in range(n)])
         if dtype.startswith('complex'):
             v = v + 1j * np.array([base[(k + 2 * i + 1) % len(base)] for i in range(n)])
         out.append(v.astype(dtype).reshape(shape))
@@ -85,11 +89,23 @@ def check_state(h, ref, tol):
     """all lattice queries agree; queries are pure (the object is unchanged by them)"""
     n_before = (len(h._t), h._n)
     nq = 0
+    recorded = set(ref.t)
     for t in ref.lattice():
-        got = np.asarray(h(t))
+        try:
+            got = np.asarray(h(t))
+        except Exception as e:
+            return nq, {'kind': 'query_raises', 't': t, 'detail': f'{type(e).__name__}: {e}'[:200]}
         exp = ref.query(t)
         nq += 1
-        if got.shape != exp.shape or not np.allclose(got, exp, rtol=tol, atol=tol):
+        scale = max(1.0, float(np.max(np.abs(exp))))
+        if t in recorded or t <= ref.t[0] or t >= ref.t[-1]:
+            # at (or outside) recorded times the stored record itself has to come back, exactly
+            ok = got.shape == exp.shape and np.array_equal(got.astype(exp.dtype), exp)
+        else:
+            i = max(j for j in range(len(ref.t)) if ref.t[j] <= t)
+            scale = max(scale, float(np.max(np.abs(ref.y[i]))), float(np.max(np.abs(ref.y[min(i + 1, len(ref.y) - 1)]))))
+            ok = got.shape == exp.shape and np.allclose(got, exp, rtol=0, atol=tol * scale)
+        if not ok:
             return nq, {'kind': 'query_mismatch', 't': t, 'got': got.tolist() if got.dtype.kind != 'c' else str(got),
                         'expected': exp.tolist() if exp.dtype.kind != 'c' else str(exp)}
     if (len(h._t), h._n) != n_before:
